@@ -17,3 +17,5 @@ finally:
     subprocess.check_call(["git", "-C", "/repo", "checkout", "--", "."])
     # files added by a patch
     subprocess.call(["git", "-C", "/repo", "clean", "-fdq", "--", "alg", "aws", "crypto", "datastruct", "events", "http", "netbuf", "network", "util", "cpusupport"])
+    # Gen/*.lean was regenerated from the mutated tree by the checks: bring it back to the real tree
+    subprocess.call(["python3", "/verif/tools/extract.py"])
